@@ -56,34 +56,3 @@ func C17_read_results() {
 		vAssert(vEqBytes(got, p), "alias.readdata_survives_pool_reuse")
 	}
 }
-
-// C17_caller_bytes: the write-side APIs documented as non-mutating leave the caller's slice
-// bit-for-bit intact (client side = masking involved).
-func C17_caller_bytes() {
-	n := []int{0, 1, 5, 130}[vChoose("n", 4)]
-	p := vBytes("p", n)
-	keep := append([]byte{}, p...)
-	dst := &vDst{failAt: -1}
-	switch vChoose("api", 4) {
-	case 0:
-		vAssert(WriteClientMessage(dst, ws.OpBinary, p) == nil, "caller.writemessage_ok")
-	case 1:
-		w := NewWriterSize(dst, ws.StateClientSide, ws.OpBinary, 4)
-		w.WriteThrough(p)
-	case 2:
-		w := NewWriterSize(dst, ws.StateClientSide, ws.OpBinary, 4)
-		w.Write(p)
-		w.Flush()
-	case 3:
-		cw := NewCipherWriter(dst, [4]byte{vU8("k0"), vU8("k1"), vU8("k2"), vU8("k3")})
-		cw.Write(p)
-	}
-	vAssert(vEqBytes(p, keep), "caller.bytes_intact")
-	// what reached the destination does not change when the caller reuses its slice
-	sent := append([]byte{}, dst.all...)
-	for i := range p {
-		p[i] = 0xEE
-	}
-	vPoisonPools()
-	vAssert(vEqBytes(dst.all, sent), "caller.destination_bytes_stable")
-}
